@@ -1132,7 +1132,7 @@ def _unrepr(text: str) -> str:
 
 
 # Known finding repr-of-undefined-in-container, re-observed on every run.
-REPR_WITNESS = ("{% assign l = n, m %}{{ 'x' | append: l }}", {"n": 3})
+REPR_WITNESS = ("{{ s, missing | date: missing }}", {"s": "ab"})   # date with an undefined format returns str(left)
 
 
 def oracle(chk: C.Check, src: str, data: dict[str, Any], outs: dict[str, tuple[str, str]], *, complete: bool,
